@@ -1815,7 +1815,7 @@ func (c *Ctx) ruleBlockLock(rule string) {
 	if !ro.ok {
 		return
 	}
-	mutex := ro.mutexOf[ro.clientT]
+	stateMutex := ro.mutexOf[ro.clientT]
 	for _, fn := range c.M.Funcs {
 		if !c.methodOrClosureOf(fn, ro.clientT) {
 			continue
@@ -1851,19 +1851,36 @@ func (c *Ctx) ruleBlockLock(rule string) {
 					continue
 				}
 				held := false
+				mutex := stateMutex
 				for _, l := range c.lockedAt(fn, in) {
-					if strings.HasSuffix(l, "."+mutex) {
-						held = true
+					for _, mname := range allMutexFields(ro.clientT) {
+						if strings.HasSuffix(l, "."+mname) {
+							held = true
+							mutex = mname
+							if mname == stateMutex {
+								break
+							}
+						}
 					}
 				}
 				if !held {
 					continue
 				}
 				k := key(rule, c.M.Key(fn), what+" under the client mutex")
+				if mutex != stateMutex {
+					k = key(rule, c.M.Key(fn), what+" under "+mutex)
+				}
 				pos := c.M.InstrPos(in)
 				switch {
 				case what == "encode":
-					c.R.Ok(rule, k, pos, "blocking operation under the client mutex", "the encoder write is what the mutex serialises")
+					// the state mutex (the one that guards the pending table) must not be held across the transport write:
+					// the read loop needs it to deliver what the peer must get rid of before it reads again
+					if c.mutexGuardsOnly(ro.clientT, mutex, ro.encoderC) {
+						c.R.Ok(rule, k, pos, "blocking operation under a client mutex", "this mutex guards nothing but the encoder: the write is what it serialises")
+					} else {
+						c.R.Bad(rule, k, pos, "the transport write happens while the client's state mutex is held",
+							"the write blocks until the peer reads; the peer may be blocked writing to the client, whose read loop needs this same mutex to take the message: writer -> peer -> read loop -> mutex -> writer; with an unbuffered transport a burst of Executes or signal traffic in both directions leaves every Execute blocked")
+					}
 				case what == "channel send" && c.sendOnTableChannel(in.(*ssa.Send), ro):
 					// formerly excepted (E-SIGNALSEND) as "a caller that stops receiving is outside the premise"; a caller
 					// that does receive, and answers each emitted signal with a signal to the step, is inside it, and
@@ -1886,4 +1903,33 @@ func (c *Ctx) sendOnTableChannel(s *ssa.Send, ro *atpRoles) bool {
 		lk = l
 	}
 	return lk != nil && strings.HasSuffix(c.M.ValPath(lk.X), "."+ro.sigTable)
+}
+
+// mutexGuardsOnly: every field of the struct that is accessed while `mutex` is held (outside construction) is `only`.
+func (c *Ctx) mutexGuardsOnly(target *types.Named, mutex, only string) bool {
+	n := 0
+	for _, a := range c.collectAccesses(target, mutex) {
+		if a.constr || !a.locked {
+			continue
+		}
+		if isNamed(fieldType(target, a.field), "sync", "Mutex") {
+			continue
+		}
+		n++
+		if a.field != only {
+			return false
+		}
+	}
+	return n > 0
+}
+
+func fieldType(target *types.Named, name string) types.Type {
+	if st, ok := target.Underlying().(*types.Struct); ok {
+		for i := 0; i < st.NumFields(); i++ {
+			if st.Field(i).Name() == name {
+				return st.Field(i).Type()
+			}
+		}
+	}
+	return types.Typ[types.Invalid]
 }
